@@ -246,6 +246,7 @@ def gen_program(rnd):
 
 
 from parse_lib import node_value, observe, same_value, ctext, c_oval, c_observed, float_oracle  # noqa: E402
+from surface_lib import surface_case  # noqa: E402
 
 
 def main():
@@ -253,7 +254,8 @@ def main():
     seed = int(os.environ.get("VERIF_SEED", "0"))
     rnd = random.Random(seed * 6700417 + int(prop[1:]))
     cases, descr, fails = [], [], []
-    dist = {"valid": 0, "corrupted": 0, "soup": 0, "multiword": 0, "accepted": 0, "rejected": 0, "crlf": 0, "lines_max": 0, "history_parses": 0,
+    surf_cases = []
+    dist = {"accepted_renderings": 0, "valid": 0, "corrupted": 0, "soup": 0, "multiword": 0, "accepted": 0, "rejected": 0, "crlf": 0, "lines_max": 0, "history_parses": 0,
             "value_kinds": {}, "unprintable": 0, "error_line_checks": 0, "cli_runs": 0}
     seen, nontrivial, evaluations = set(), 0, 0
     shared = Parser()      # one parser object re-used for the whole history (C11: independence of what was parsed before)
@@ -330,6 +332,12 @@ def main():
                         if badv:
                             fails.append({"sig": "C11:value-line", "what": "a value or list element of argument %s carries a line other than the one it starts on" % badv[0], "replay": replay})
                             break
+        # is this rendering an instance of the layout theorem C10_layout_irrelevance?  (decomposition untrusted, decided in Coq)
+        if prop == "C10" and o[0] == "ok":
+            sc = surface_case(Parser, src)
+            dist["accepted_renderings"] += 1
+            if sc is not None:
+                surf_cases.append(sc)
         # Coq case
         try:
             fl = float_oracle(src)
@@ -432,8 +440,17 @@ def main():
                      "Definition cases : list (text * list (text * text) * observed) := [\n  %s\n].\n"
                      "Eval vm_compute in (failing check_parse cases).\n" % ";\n  ".join(cases[i:i + CH]))
         files.append({"path": path, "first": i, "count": len(cases[i:i + CH])})
+    surf_files = []
+    for i in range(0, len(surf_cases), CH):
+        path = os.path.join(os.getcwd(), "Cases_%ssf_%03d.v" % (prop, i // CH))
+        with open(path, "w") as fh:
+            fh.write("From Coq Require Import NArith ZArith List.\nFrom MP Require Import Base.Check Model.Lexer Model.Parser Proofs.Surface Corr.CheckSurface.\n"
+                     "Import ListNotations.\nOpen Scope N_scope.\n"
+                     "Definition cases : list (list xcmd * list text * text * text) := [\n  %s\n].\n"
+                     "Eval vm_compute in (failing instance_of_layout_theorem cases).\n" % ";\n  ".join(surf_cases[i:i + CH]))
+        surf_files.append({"path": path, "first": i, "count": len(surf_cases[i:i + CH])})
     mine = [f for f in fails if f["sig"].startswith(prop + ":")]
-    json.dump({"files": files, "descr": descr, "oracle_failures": mine, "other_property_failures": sorted(set(f["sig"] for f in fails if not f["sig"].startswith(prop + ":")))[:20],
+    json.dump({"surf_files": surf_files, "files": files, "descr": descr, "oracle_failures": mine, "other_property_failures": sorted(set(f["sig"] for f in fails if not f["sig"].startswith(prop + ":")))[:20],
                "distribution": dist, "evaluations": evaluations, "distinct_nontrivial": nontrivial, "samples": descr[:1] + descr[-2:],
                "tree": mpilot.__file__}, open(out, "w"), default=str)
 
